@@ -100,6 +100,12 @@ func (n *Net) Do(req *http.Request) (*http.Response, error) {
 		}
 		return r
 	}).(*NetReply)
+	if rep.Err != nil && ctx.Err() != nil {
+		// the context had already ended when the request was granted: do not race a timer
+		// against ctx.Done() (select would pick at random)
+		w.Park("net-cancelled", key, nil, nil)
+		return nil, ctx.Err()
+	}
 	if rep.Hang {
 		<-ctx.Done()
 		w.Park("net-cancelled", key, nil, nil)
